@@ -156,7 +156,12 @@ def c02(E, blt, opts, r):
                 if a['tag'] in ('elect', 'transfer', 'end') and 'elected' in a['msg'].lower() + ' elected':
                     pass
             if a['tag'] == 'transfer' and a['msg'].startswith('Transfer elected'):
-                if abs(tot - nel) * S > (n + 1) * max(nel, 1):
+                # rounding allowance: a ballot's new share is 1/quotient, and one unit of error in a quotient q moves 1/q by
+                # 1/q**2 units -- more than one unit when the quotient is below one vote (many seats, few ballots)
+                qs = [fv(E, x['quotient']) for b in snaps(E)[:i + 1] for x in b['cstate'].values()
+                      if x['state'] == 'elected' and x.get('quotient') is not None and fv(E, x['quotient']) > 0]
+                amp = max([1] + [int(1 / (q * q)) + 1 for q in qs])
+                if abs(tot - nel) * S > (n + 1) * max(nel, 1) * amp:
                     out.append(V_('c02-qpq', "ballot contributions sum to %s with %d elected at %r" % (tot, nel, a['msg']), **sig))
     # votes credited to a withdrawn candidate are lost to everybody else: the record has no tally for withdrawn candidates
     for c in E.C:
